@@ -231,11 +231,11 @@ fn check_triple_all_bits(ctx: &mut Ctx, t: &Triple) -> Res {
 pub fn run(ctx: &mut Ctx) -> Vec<Violation> {
     let mut out = vec![];
     let t = ctx.tier;
-    out.extend(run_prop(ctx, "history", t.pick(4_000, 120_000), 1000, history(), |ctx, c| {
+    out.extend(run_prop(ctx, "history", t.pick(12_000, 240_000), 1000, history(), |ctx, c| {
         ctx.sample("history", 2, c);
         check_history(ctx, c)
     }));
-    out.extend(run_prop(ctx, "triple-all-bits", t.pick(160, 4_000), 200, (seed32(), chunks()).prop_map(|(seed, chunks)| Triple { seed, chunks }), |ctx, c| {
+    out.extend(run_prop(ctx, "triple-all-bits", t.pick(480, 8_000), 200, (seed32(), chunks()).prop_map(|(seed, chunks)| Triple { seed, chunks }), |ctx, c| {
         ctx.sample("triple", 1, c);
         check_triple_all_bits(ctx, c)
     }));
@@ -247,7 +247,7 @@ pub fn run(ctx: &mut Ctx) -> Vec<Violation> {
         1 => any::<u8>().prop_map(Corrupt::SigLen),
         1 => Just(Corrupt::OtherKey),
     ];
-    out.extend(run_prop(ctx, "verify", t.pick(8_000, 200_000), 1000, (seed32(), chunks(), corrupt).prop_map(|(seed, chunks, corrupt)| VerifyCase { seed, chunks, corrupt }), |ctx, c| check_verify(ctx, c)));
+    out.extend(run_prop(ctx, "verify", t.pick(40_000, 800_000), 1000, (seed32(), chunks(), corrupt).prop_map(|(seed, chunks, corrupt)| VerifyCase { seed, chunks, corrupt }), |ctx, c| check_verify(ctx, c)));
     out
 }
 
